@@ -1,4 +1,4 @@
-From Coq Require Import Lia.
+From Coq Require Import Lia Permutation.
 From Flaxm Require Import Lib.Harness Model.NdIndex Proofs.NdIndex Model.Einsum.
 Open Scope Z_scope.
 
@@ -50,3 +50,68 @@ Theorem bias_pos_kernel_axes sizes rhs out o o' :
   map (fun lc => if in_rhs rhs (fst lc) then snd lc else 0%nat) (asg_of sizes out o') ->
   bias_pos sizes rhs out o = bias_pos sizes rhs out o'.
 Proof. intros H. unfold bias_pos. now rewrite H. Qed.
+
+(* ---- writing the result labels in another order only transposes the result ---- *)
+Lemma coord_app a c l : coord (a ++ c) l = if existsb (Nat.eqb l) (map fst a) then coord a l else coord c l.
+Proof.
+  unfold coord. induction a as [|[k v] r IH]; cbn [app find map fst existsb]; [reflexivity|].
+  rewrite (Nat.eqb_sym k l). destruct (Nat.eqb l k); cbn [orb]; [reflexivity|exact IH].
+Qed.
+Lemma combine_fst {A B} : forall (l : list A) (m : list B), length l = length m -> map fst (combine l m) = l.
+Proof. induction l as [|x l IH]; intros [|y m] H; cbn [length] in H; try discriminate; [reflexivity|]. cbn. f_equal. apply IH. lia. Qed.
+Lemma coord_combine_map (f : lab -> nat) : forall ls l, In l ls -> coord (combine ls (map f ls)) l = f l.
+Proof.
+  unfold coord. induction ls as [|k r IH]; intros l Hin; [contradiction|]. cbn [map combine find fst snd].
+  destruct (Nat.eqb_spec k l) as [->|Hne]; [reflexivity|]. destruct Hin as [->|Hin]; [contradiction|]. now apply IH.
+Qed.
+Lemma existsb_perm (l : lab) a b : Permutation a b -> existsb (Nat.eqb l) a = existsb (Nat.eqb l) b.
+Proof.
+  intros P. destruct (existsb (Nat.eqb l) a) eqn:Ea, (existsb (Nat.eqb l) b) eqn:Eb; try reflexivity.
+  - apply existsb_exists in Ea as (x & Hx & E). assert (existsb (Nat.eqb l) b = true); [|congruence].
+    apply existsb_exists. exists x. split; [now apply (Permutation_in _ P)|exact E].
+  - apply existsb_exists in Eb as (x & Hx & E). assert (existsb (Nat.eqb l) a = true); [|congruence].
+    apply existsb_exists. exists x. split; [now apply (Permutation_in _ (Permutation_sym P))|exact E].
+Qed.
+Lemma contracted_perm lhs rhs out out' : Permutation out out' -> contracted lhs rhs out = contracted lhs rhs out'.
+Proof. intros P. unfold contracted. apply filter_ext. intros l. now rewrite (existsb_perm l out out' P). Qed.
+Lemma unravel_length' shape i : length (unravel shape i) = length shape.
+Proof. revert i. induction shape as [|d r IH]; intros i; cbn [unravel length]; [reflexivity|]. now rewrite IH. Qed.
+Lemma existsb_in l ls : existsb (Nat.eqb l) ls = true <-> In l ls.
+Proof. rewrite existsb_exists. split; [intros (x & Hx & E); apply Nat.eqb_eq in E; now subst|intros H; exists l; split; [exact H|apply Nat.eqb_refl]]. Qed.
+
+Lemma coord_below sizes : forall out' idx l, in_range (shape_of sizes out') idx = true -> In l out' ->
+  (coord (combine out' idx) l < size_of sizes l)%nat.
+Proof.
+  induction out' as [|k r IH]; intros idx l Hin Hl; [contradiction|].
+  destruct idx as [|i idx]; cbn [shape_of map in_range] in Hin; [discriminate|].
+  apply andb_true_iff in Hin as [Hi Hr]. apply Nat.ltb_lt in Hi. unfold coord. cbn [combine find fst snd].
+  destruct (Nat.eqb_spec k l) as [->|Hne]; [exact Hi|]. destruct Hl as [->|Hl]; [contradiction|].
+  apply (IH idx l Hr Hl).
+Qed.
+Lemma in_range_coords sizes out' o' : (o' < prod (shape_of sizes out'))%nat -> forall out, (forall l, In l out -> In l out') ->
+  in_range (shape_of sizes out) (coords (asg_of sizes out' o') out) = true.
+Proof.
+  intros Ho out Hsub. destruct (ravel_unravel (shape_of sizes out') o' Ho) as [_ Hin].
+  induction out as [|l r IH]; [reflexivity|]. cbn [shape_of coords map in_range].
+  apply andb_true_iff. split.
+  - apply Nat.ltb_lt. unfold asg_of. apply coord_below; [exact Hin|apply Hsub; now left].
+  - apply IH. intros x Hx. apply Hsub. now right.
+Qed.
+
+Theorem einsum_out_permutation sizes lhs rhs out out' x k o' : Permutation out out' -> NoDup out' ->
+  (o' < prod (shape_of sizes out'))%nat ->
+  einsum_entry sizes lhs rhs out' x k o' =
+  einsum_entry sizes lhs rhs out x k (ravel (shape_of sizes out) (coords (asg_of sizes out' o') out)).
+Proof.
+  intros P ND Ho. unfold einsum_entry. rewrite (contracted_perm lhs rhs out out' P). f_equal. apply map_ext. intros c.
+  assert (Hsub : forall l, In l out -> In l out') by (intros l; apply (Permutation_in _ P)).
+  pose proof (in_range_coords sizes out' o' Ho out Hsub) as Hr.
+  unfold asg_of at 3. rewrite (unravel_ravel _ _ Hr). fold (asg_of sizes out' o').
+  set (a' := asg_of sizes out' o'). set (cc := asg_of sizes (contracted lhs rhs out') c).
+  assert (Hcoord : forall l, coord (a' ++ cc) l = coord (combine out (coords a' out) ++ cc) l).
+  { intros l. rewrite !coord_app. unfold coords. rewrite combine_fst by now rewrite map_length.
+    assert (Hd : map fst a' = out') by (unfold a', asg_of; apply combine_fst; rewrite unravel_length'; unfold shape_of; now rewrite map_length).
+    rewrite Hd, <- (existsb_perm l out out' P).
+    destruct (existsb (Nat.eqb l) out) eqn:E; [|reflexivity]. apply existsb_in in E. now rewrite coord_combine_map. }
+  unfold term, coords. f_equal; f_equal; f_equal; apply map_ext; intros l; apply Hcoord.
+Qed.
